@@ -15,7 +15,8 @@ func init() {
 		run: runC06,
 		explanation: "Decided (structural, for every crash point at transaction-commit granularity): " +
 			"C06.headerlast — in every function that writes the data bucket (in-memory writer and big writer alike), no path leads from a put of the schema or of the row counter through a Commit to a put of a bitmap, no Commit lies between the two header puts, and every successful return has passed both header puts and a Commit after them; so every committed prefix of a creation lacks the schema key; " +
-			"C06.openvalidate — the open function guards the data bucket against nil before using it, guards the length of the row-counter item (and of every byte slice it decodes with encoding/binary) before decoding, and propagates the schema decode error; hence a file without schema (every committed prefix) is rejected with an error, never a panic. " +
+			"C06.openvalidate — the open function guards the data bucket against nil before using it, guards the length of the row-counter item (and of every byte slice it decodes with encoding/binary) before decoding, indexes or re-slices (constant bound) a byte slice that comes from the file — Bucket.Get result, cursor key/value, also as a helper's parameter or result — only under a dominating length test, and propagates the schema decode error; hence a file without schema (every committed prefix) is rejected with an error, never a panic; " +
+			"C06.release — the rejection neither hangs the next open nor panics: every failing return of the open function has closed the database handle (or every caller in the module closes the handle it passed), and no caller calls a receiver-dereferencing method on the nil *Index result of a failed open (= C15.release). " +
 			"NOT decided: bbolt's per-transaction atomicity and meta-page validation (trusted); SIGKILL below transaction granularity (bbolt's business); equality of answers of a completely written index (C05).",
 		assumptions: []string{"bbolt transactions are atomic and durable at Commit", "gob decoding of an absent/empty schema item fails", "go/ssa CFG"},
 	})
@@ -24,9 +25,10 @@ func init() {
 		run: runC15,
 		explanation: "Decided (structural, for every damaged file and open/close sequence): " +
 			"C15.nocreate — OpenIndex opens the file through an openfile hook that clears O_CREATE (constant option evaluated through OpenFile's branches; flag arithmetic of the returned hook); " +
-			"C15.validate — nil data bucket, row-counter length, bitmap-key length and schema/bitmap decode errors are guarded resp. propagated in everything reachable from the open functions and options (= C06.openvalidate); " +
-			"C15.release — every return of the open function with a non-nil error has passed a Close of the database handle on every path, and OpenIndex hands the handle to the open function or closes it on every path after a successful bbolt.Open; " +
-			"C15.closeidem — Index.Close calls DB.Close only on a handle known to be non-nil and stores nil into the handle field on that path, so a second Close is a no-op; C15.txend — every transaction begun explicitly (DB.Begin) in code reachable from the open functions and options is rolled back or committed on every path after the successful Begin (a leaked transaction makes the db.Close() of a failing open wait forever). " +
+			"C15.validate — nil data bucket, row-counter length, bitmap-key length, the length of every file item before it is indexed or re-sliced, and schema/bitmap decode errors are guarded resp. propagated in everything reachable from the open functions and options (= C06.openvalidate); " +
+			"C15.release — every return of the open function with a non-nil error has passed a Close of the database handle on every path (directly, through the index under construction, in a helper whose parameter is bound to the handle and that closes on all of its paths, or in a deferred close-on-error literal) — or else every caller in the module closes the handle it passed on every path on which the open function failed; no caller calls a receiver-dereferencing method on the *Index result while the error is known to be non-nil (the result is nil then: the release panics and the file stays locked); and OpenIndex hands the handle to the open function or closes it on every path after a successful bbolt.Open; " +
+			"C15.closeidem — Index.Close calls DB.Close only on a handle known to be non-nil and stores nil into the handle field on that path, so a second Close is a no-op; C15.txend — every transaction begun explicitly (DB.Begin) in code reachable from the open functions and options is rolled back or committed on every path after the successful Begin (a leaked transaction makes the db.Close() of a failing open wait forever); " +
+			"C15.lockbalance — in every function reachable from the open functions, the options and Index.Close, a mutex field the function acquires is released (directly, or by a deferred unlock registered on that path) on every path to every return, so a repeated Close or a failed open never leaves the index mutex locked for the next call. " +
 			"NOT decided: which byte patterns make gob/roaring decoding fail, and that roaring's FromBuffer never panics on arbitrary bytes (trusted); panics inside bbolt itself on structurally invalid files.",
 		assumptions: []string{"bbolt.DB.Close releases the flock", "roaring FromBuffer / gob Decode return errors rather than panic on malformed input", "go/ssa CFG, dominance"},
 	})
@@ -124,7 +126,7 @@ func prefixedEmpty(c *Ctx, v ssa.Value) bool {
 }
 
 func runC06(c *Ctx) {
-	if !c.need("C06.headerlast", c.a.MemWrite, c.a.BigFlush, c.a.KeySchema, c.a.KeyRows, c.a.KeyValue, c.a.OpenFromDB) {
+	if !c.need("C06.headerlast", c.a.MemWrite, c.a.BigFlush, c.a.KeySchema, c.a.KeyRows, c.a.KeyValue, c.a.OpenFromDB, c.a.OpenIndex, c.a.IndexClose, c.a.IndexT) {
 		return
 	}
 	for _, fn := range []*ssa.Function{c.a.MemWrite, c.a.BigFlush} {
@@ -170,6 +172,9 @@ func runC06(c *Ctx) {
 		c.r.ok("C06.headerwriters", "module", fmt.Sprintf("schema and row counter keys are written only in functions reachable from the %d flush functions", 2))
 	}
 	openValidateRule(c, "C06.openvalidate")
+	// "opening never panics or hangs": a failing open that keeps the file locked makes the next open hang, a release
+	// attempted through the nil result panics
+	releaseRule(c, "C06.release")
 	c.r.expect("C06.headerlast", 6)
 	c.r.expect("C06.openvalidate", 5)
 }
@@ -458,6 +463,8 @@ func openValidateRule(c *Ctx, rule string) {
 		c.r.undecided(rule, "bucket lookup", "the open function does not look up the data bucket", c.w.pos(c.a.OpenFromDB.Pos()))
 	}
 	c.r.Stats["open_decodes_checked"] = nDecode
+	// direct indexing / re-slicing of items read from the file (a format byte in front of the schema, a key prefix)
+	fileBytesBoundsRule(c, rule, re)
 	// order: options run only after the file has been validated. The options' own transactions (preloading) rely on the
 	// data bucket being there — that is why their Bucket() results need no nil check of their own (see above).
 	optT := c.w.namedType(pkgRoot, "IndexOption")
@@ -564,38 +571,213 @@ func runC15(c *Ctx) {
 	releaseRule(c, "C15.release")
 	closeIdemRule(c, "C15.closeidem")
 	txEndRule(c, "C15.txend", openReach(c))
+	// "Close may be called more than once" and everything after a failed open: nothing on the open/close path may return
+	// with the index mutex (or any other mutex field it took) still locked
+	lockBalanceRule(c, "C15.lockbalance", c.a.OpenIndex, c.a.OpenFromDB, c.a.WithCache, c.a.WithPreloaded, c.a.WithMetrics, c.a.IndexClose)
 	c.r.expect("C15.validate", 5)
 	c.r.expect("C15.release", 2)
 }
 
+// closesHandle: instruction i closes the database: DB.Close on a value satisfying isH, Index.Close on an index
+// satisfying isH, or a call of a module helper (or function literal) that does one of these on every one of its paths,
+// the helper's parameters being bound to the handle arguments of the call — `failOpen(db, err)` that closes db and
+// returns `nil, err`. A helper that closes on some of its paths only is not a close (mustPass), so the defect "this
+// failure path keeps the file locked" is found inside helpers as well. Deferred and `go` calls are not events here.
+func closesHandle(c *Ctx, i ssa.Instruction, isH func(ssa.Value) bool, depth int) bool {
+	call, ok := i.(*ssa.Call)
+	if !ok {
+		return false
+	}
+	cc := &call.Call
+	if calleeName(cc) == boltDBClose {
+		return isH(cc.Args[0])
+	}
+	f := calleeFunc(cc)
+	if f == nil {
+		return false
+	}
+	if f == c.a.IndexClose {
+		return len(cc.Args) > 0 && isH(cc.Args[0])
+	}
+	if depth <= 0 || !c.w.inModule(f) || f.Blocks == nil {
+		return false
+	}
+	bound := map[ssa.Value]bool{}
+	for k, a := range cc.Args {
+		if k < len(f.Params) && isH(a) {
+			bound[f.Params[k]] = true
+		}
+	}
+	// a function literal of the calling function sees the handle through its free variables (peel resolves them)
+	lit := f.Parent() != nil && f.Parent() == i.Parent()
+	if len(bound) == 0 && !lit {
+		return false
+	}
+	inner := func(v ssa.Value) bool {
+		if bound[peel(v)] {
+			return true
+		}
+		// p.db of an index parameter bound to the index under construction
+		if pt := path(v); len(pt.Steps) > 0 && bound[pt.Root] && isBoltDB(v.Type()) {
+			if fld := pt.lastField(); fld != nil && c.w.ownerOf(fld) == c.a.IndexT {
+				return true
+			}
+		}
+		return lit && isH(v)
+	}
+	return c.fc.mustPass(f, func(j ssa.Instruction) bool { return closesHandle(c, j, inner, depth-1) }, 0)
+}
+
+const boltDBClose = "(*go.etcd.io/bbolt.DB).Close"
+
+func isBoltDB(t types.Type) bool { return typeIs(t, "go.etcd.io/bbolt", "DB") }
+
+// errNilEdge: the CFG edge pred→succ is taken only when the error value errv is nil (the success branch of
+// `if err != nil`); errv may have gone through a result cell.
+func errNilEdge(errv ssa.Value) func(pred, succ *ssa.BasicBlock) bool {
+	return func(pred, succ *ssa.BasicBlock) bool {
+		iff, ok := pred.Instrs[len(pred.Instrs)-1].(*ssa.If)
+		if !ok || errv == nil || len(pred.Succs) != 2 {
+			return false
+		}
+		for _, cm := range trueCmps(fact{iff.Cond, pred.Succs[0] == succ}) {
+			if cm.Op == token.EQL && cm.Y != nil && ((lastStoredIs(cm.X, errv) && isNilConst(cm.Y)) || (lastStoredIs(cm.Y, errv) && isNilConst(cm.X))) {
+				return true
+			}
+		}
+		return false
+	}
+}
+
+// errKnownNonNil: errv != nil follows from the branch facts that dominate `at`.
+func errKnownNonNil(errv ssa.Value, at ssa.Instruction) bool {
+	if errv == nil {
+		return false
+	}
+	for _, cm := range cmpsAt(at) {
+		if cm.Op == token.NEQ && cm.Y != nil && ((lastStoredIs(cm.X, errv) && isNilConst(cm.Y)) || (lastStoredIs(cm.Y, errv) && isNilConst(cm.X))) {
+			return true
+		}
+	}
+	return false
+}
+
+// derefsReceiverUnguarded: method m reads or writes through its pointer receiver at a point where the receiver is not
+// known to be non-nil — calling it on a nil pointer panics (`if idx.db == nil` is such a read, not a guard).
+func derefsReceiverUnguarded(m *ssa.Function) ssa.Instruction {
+	if m == nil || m.Blocks == nil || m.Signature.Recv() == nil || len(m.Params) == 0 {
+		return nil
+	}
+	recv := ssa.Value(m.Params[0])
+	if _, isPtr := recv.Type().Underlying().(*types.Pointer); !isPtr {
+		return nil
+	}
+	var hit ssa.Instruction
+	allInstrs(m, func(i ssa.Instruction) {
+		if hit != nil {
+			return
+		}
+		switch x := i.(type) {
+		case *ssa.FieldAddr:
+			// the address computation itself does not fault; its use does
+			if peel(x.X) != recv || knownNonNil(recv, i) {
+				return
+			}
+			for _, u := range referrers(x) {
+				switch u.(type) {
+				case *ssa.UnOp, *ssa.Store:
+					if !knownNonNil(recv, u) {
+						hit = u
+					}
+				}
+			}
+		case *ssa.UnOp:
+			if x.Op == token.MUL && x.X == recv && !knownNonNil(recv, i) {
+				hit = i
+			}
+		}
+	})
+	return hit
+}
+
+// openFailResultNil: some error return of the open function returns the nil constant as its first result (directly or as
+// the result of a helper such as failOpen whose returns do).
+func openFailResultNil(c *Ctx, fn *ssa.Function) bool {
+	found := false
+	allInstrs(fn, func(i ssa.Instruction) {
+		if !isErrorReturn(i) {
+			return
+		}
+		v := retVals(i.(*ssa.Return))[0]
+		if isNilConst(v) {
+			found = true
+			return
+		}
+		if _, _, vals, ok := resultOrigins(c.w, v); ok {
+			for _, rv := range vals {
+				if isNilConst(rv) {
+					found = true
+				}
+			}
+		}
+	})
+	return found
+}
+
+// releaseRule: (a) every return of the open function with a non-nil error has passed a Close of the database handle on
+// every path (directly, through the index under construction, in a helper bound to the handle, or in a deferred
+// close-on-error literal) — or, in the "who opened it closes it" design, every module caller of the open function closes
+// the handle it passed on every path on which the open function's error is non-nil; (b) OpenIndex hands the handle to the
+// open function or closes it on every path after a successful bbolt.Open; (c) a caller of the open function never
+// calls, with the error known to be non-nil, a receiver-dereferencing method on the *Index result: that result is nil
+// then, so the "release" panics and the file stays locked.
 func releaseRule(c *Ctx, rule string) {
 	// (a) the open function: every error return has passed a Close of the handle
 	fn := c.a.OpenFromDB
 	db := ssa.Value(fn.Params[0])
 	idxT := c.a.IndexT
-	isClose := func(i ssa.Instruction) bool {
-		cc := callCommon(i)
-		if cc == nil {
-			return false
+	isH := func(v ssa.Value) bool {
+		if peel(v) == db {
+			return true
 		}
+		// idx.db where idx is the index built here
+		if isBoltDB(v.Type()) {
+			f := path(v).lastField()
+			return f != nil && c.w.ownerOf(f) == idxT
+		}
+		// the index built here (its db field is set from the handle)
+		_, isPtr := v.Type().Underlying().(*types.Pointer)
+		return isPtr && namedOf(v.Type()) == idxT
+	}
+	isClose := func(i ssa.Instruction) bool {
 		if d, isDefer := i.(*ssa.Defer); isDefer {
 			return closesOnError(c, fn, d, db)
 		}
-		switch calleeName(cc) {
-		case "(*go.etcd.io/bbolt.DB).Close":
-			a := peel(cc.Args[0])
-			if a == db {
-				return true
+		return closesHandle(c, i, isH, 2)
+	}
+	// the callers of the open function inside the module
+	type site struct {
+		g    *ssa.Function
+		call *ssa.Call
+	}
+	var sites []site
+	for _, g := range c.w.ModFuncs {
+		allInstrs(g, func(i ssa.Instruction) {
+			if call, ok := i.(*ssa.Call); ok && calleeFunc(&call.Call) == fn && g != fn {
+				sites = append(sites, site{g, call})
 			}
-			// idx.db where idx is the index built here
-			if f := path(cc.Args[0]).lastField(); f != nil && c.w.ownerOf(f) == idxT {
-				return true
-			}
+		})
+	}
+	isRet := func(x ssa.Instruction) bool { _, r := x.(*ssa.Return); return r }
+	callersClose := len(sites) > 0
+	for _, s := range sites {
+		arg := s.call.Call.Args[0]
+		errv := resultValue(s.call, 1)
+		isArg := func(v ssa.Value) bool { return sameValue(v, arg) }
+		closeEv := func(i ssa.Instruction) bool { return closesHandle(c, i, isArg, 2) }
+		if errv == nil || c.fc.pathFrom(s.g, s.call, isRet, closeEv, errNilEdge(errv)) != nil {
+			callersClose = false
 		}
-		if f := calleeFunc(cc); f != nil && f == c.a.IndexClose {
-			return true
-		}
-		return false
 	}
 	n := 0
 	allInstrs(fn, func(i ssa.Instruction) {
@@ -605,13 +787,43 @@ func releaseRule(c *Ctx, rule string) {
 		n++
 		key := fmt.Sprintf("%s: error return#%d", safeFname(fn), n)
 		if p := c.fc.pathAvoiding(fn, nil, func(x ssa.Instruction) bool { return x == i }, isClose); p != nil {
-			c.r.bad(rule, key, "the open function returns an error without closing the database on this path: the file stays locked and the next open blocks", []string{c.w.ipos(i)}, c.fc.witnessStrings(p)...)
+			if callersClose {
+				c.r.ok(rule, key, fmt.Sprintf("not closed here, but each of the %d callers in the module closes the handle it passed on every path on which this function failed", len(sites)), c.w.ipos(i))
+				return
+			}
+			c.r.bad(rule, key, "the open function returns an error without closing the database on this path (and not every caller closes the handle itself when the open function fails): the file stays locked and the next open blocks", []string{c.w.ipos(i)}, c.fc.witnessStrings(p)...)
 		} else {
 			c.r.ok(rule, key, "database closed on every path to this error return", c.w.ipos(i))
 		}
 	})
 	if n == 0 {
 		c.r.undecided(rule, safeFname(fn), "the open function has no error return", c.w.pos(fn.Pos()))
+	}
+	// (c) the failed open's *Index result is nil: no method that dereferences its receiver may be called on it
+	if openFailResultNil(c, fn) {
+		for k, s := range sites {
+			res, errv := resultValue(s.call, 0), resultValue(s.call, 1)
+			key := fmt.Sprintf("%s: use of the failed open's result#%d", safeFname(s.g), k+1)
+			var badUse, deref ssa.Instruction
+			if res != nil && errv != nil {
+				allInstrs(s.g, func(i ssa.Instruction) {
+					cc := callCommon(i)
+					if cc == nil || badUse != nil || len(cc.Args) == 0 || !sameValue(cc.Args[0], res) || !errKnownNonNil(errv, i) || knownNonNil(res, i) {
+						return
+					}
+					if m := calleeFunc(cc); m != nil && c.w.inModule(m) {
+						if d := derefsReceiverUnguarded(m); d != nil {
+							badUse, deref = i, d
+						}
+					}
+				})
+			}
+			if badUse != nil {
+				c.r.bad(rule, key, "with the open function's error known to be non-nil, "+safeFname(calleeFunc(callCommon(badUse)))+" is called on its *Index result, which is nil then, and the method dereferences its receiver: opening a rejected file panics with a nil pointer dereference instead of returning the error, and the database handle (the lock on the file) is never released — close the handle itself", []string{c.w.ipos(badUse)}, c.w.ipos(s.call), c.w.ipos(deref))
+			} else {
+				c.r.ok(rule, key, "no receiver-dereferencing method is called on the nil result of a failed open", c.w.ipos(s.call))
+			}
+		}
 	}
 	// (b) OpenIndex: after a successful bbolt.Open the handle goes to the open function or is closed
 	oi := c.a.OpenIndex
@@ -626,6 +838,8 @@ func releaseRule(c *Ctx, rule string) {
 		return
 	}
 	openErr := resultValue(openCall, 1)
+	opened := resultValue(openCall, 0)
+	isOpened := func(v ssa.Value) bool { return opened != nil && sameValue(v, opened) }
 	handOver := func(i ssa.Instruction) bool {
 		cc := callCommon(i)
 		if cc == nil {
@@ -634,7 +848,7 @@ func releaseRule(c *Ctx, rule string) {
 		if f := calleeFunc(cc); f == c.a.OpenFromDB {
 			return true
 		}
-		return calleeName(cc) == "(*go.etcd.io/bbolt.DB).Close"
+		return calleeName(cc) == boltDBClose || closesHandle(c, i, isOpened, 2)
 	}
 	target := func(i ssa.Instruction) bool {
 		ret, ok := i.(*ssa.Return)
@@ -652,7 +866,7 @@ func releaseRule(c *Ctx, rule string) {
 	if p := c.fc.pathAvoiding(oi, openCall, target, handOver); p != nil {
 		c.r.bad(rule, safeFname(oi), "after a successful bbolt.Open, OpenIndex can return without handing the database to the open function or closing it", []string{c.w.ipos(p[len(p)-1])}, c.fc.witnessStrings(p)...)
 	} else {
-		c.r.ok(rule, safeFname(oi), "the handle is handed to the open function (which closes it on failure) on every path", c.w.ipos(openCall))
+		c.r.ok(rule, safeFname(oi), "the handle is handed to the open function (which closes it on failure, or whose failure makes the caller close it) on every path", c.w.ipos(openCall))
 	}
 }
 
